@@ -198,21 +198,18 @@ static void probePhrase(JW &w, Inst &in)
 static void probePlay(JW &w, Inst &in)
 {
     OPN2_MIDIPlayer *dev = in.dev;
-    OPNMIDIplay *p = playerOf(dev);
     w.begin_obj();
     if(opn2_trackCount(dev) == 0) { w.kv("played", 0); w.end_obj(); return; }
     opn2_reset(dev);                 // start from silent chips and default MIDI channel state
     opn2_positionRewind(dev);
     memset(in.hc, 0, sizeof in.hc);
     in.tap->clear();
-    double s = 0.0; int calls = 0, endSeen = 0;
-    while(calls < 90)
+    // fixed 10 ms steps (independent of what the tick function returns): 1.5 s cover the song at every tempo used
+    int calls = 0, endSeen = 0;
+    while(calls < 150)
     {
-        double r = opn2_tickEvents(dev, s, 0.0);
+        opn2_tickEvents(dev, 0.010, 0.0);
         ++calls;
-        double mult = p->m_sequencer->getTempoMultiplier();
-        s = (mult > 0.0) ? r / mult : r;
-        if(s > 2.0) s = 2.0;
         if(opn2_atEnd(dev)) { if(++endSeen >= 2) break; }
         if(in.tap->ops.size() > 4000) break;
     }
